@@ -23,6 +23,9 @@ import zoneinfo
 _real_open = builtins.open
 _real_environ = os.environ
 
+# zone lookups are answered by the tzdata package only (see sim/tzdb.py)
+zoneinfo.reset_tzpath(to=[])
+
 import time_machine  # noqa: E402
 
 import pendulum  # noqa: E402
@@ -236,6 +239,8 @@ class World:
         """zone literal -> tzinfo: str name | int fixed offset seconds"""
         if isinstance(key, int):
             return FixedTimezone(key)
+        if isinstance(key, (tuple, list)) and key[0] == "file":
+            return Timezone.from_file(io.BytesIO(key[1]))
         return pendulum.timezone(key)
 
     # ---------------------------------------------------------------- caches
